@@ -1,5 +1,7 @@
 package main
 
+import "strings"
+
 // strings.Index / Contains / Replace / ReplaceAll. The real bodies end in assembly (internal/bytealg) and in
 // byte-slice code of symbolic length; here:
 //   - atom-free operands (literals and symbolic bytes): a search by case split, position by position
@@ -94,6 +96,11 @@ func (e *Engine) registerStringsIntrinsics() {
 		if r.strIsEmpty(old) {
 			panic(unsupported("strings.Replace with an empty pattern"))
 		}
+		if n == 1 {
+			if v, ok := r.replaceInPath(s, old, nw); ok {
+				return v
+			}
+		}
 		op := "str.replace_all"
 		if n == 1 {
 			op = "str.replace"
@@ -110,4 +117,64 @@ func (e *Engine) registerStringsIntrinsics() {
 	in["strings.ReplaceAll"] = func(r *Run, fr *frame, a []Value) Value {
 		return replace(r, a[0].(StrV), a[1].(StrV), a[2].(StrV), -1)
 	}
+}
+
+// replaceInPath: strings.Replace(s, old, nw, 1) where s is a '/'-separated list of elements and old cannot contain
+// '/': the first occurrence lies inside the first element that contains old, so the search is a case split over
+// the elements (str.contains on single elements) and only that element is rewritten; an element that is old itself
+// needs no solver at all.
+func (r *Run) replaceInPath(s, old, nw StrV) (Value, bool) {
+	elems, abs := splitElems(s)
+	rebuild := func(el []StrV) StrV {
+		out := StrV{}
+		if abs {
+			out = strLit("/")
+		}
+		for i, e := range el {
+			if i > 0 {
+				out = concatStr(out, strLit("/"))
+			}
+			out = concatStr(out, e)
+		}
+		return out
+	}
+	if len(elems) < 2 || rebuild(elems).term().String() != s.term().String() {
+		return nil, false
+	}
+	if r.feasible(mk("str.contains", sortBool, old.term(), mkStrLit("/"))) {
+		return nil, false
+	}
+	for i, e := range elems {
+		same := e.term().String() == old.term().String()
+		if !same {
+			var c *Term
+			if e.isConcrete() && old.isConcrete() {
+				if !strings.Contains(e.concrete(), old.concrete()) {
+					continue
+				}
+			} else {
+				c = mk("str.contains", sortBool, e.term(), old.term())
+				if !r.branch(c) {
+					continue
+				}
+			}
+		}
+		ne := append([]StrV{}, elems...)
+		switch {
+		case same:
+			ne[i] = nw
+		case e.isConcrete() && old.isConcrete():
+			ne[i] = strLit(strings.Replace(e.concrete(), old.concrete(), nw.concrete(), 1))
+			if !nw.isConcrete() {
+				return nil, false
+			}
+		default:
+			t := r.fresh("repl", sortStr)
+			r.pc = append(r.pc, mkEq(t, mk("str.replace", sortStr, e.term(), old.term(), nw.term())))
+			ne[i] = StrV{Segs: []Seg{{Atom: t}}}
+		}
+		// an emptied element leaves its separators in place ("a//c"): rebuild keeps them
+		return rebuild(ne), true
+	}
+	return s, true
 }
